@@ -826,6 +826,143 @@ fn flight_decoder(ctx: &Ctx) -> R {
     Ok(())
 }
 
+// ---------------------------------------------------------------------------------------------
+// Avro single-object-encoding Decoder (schema store + fingerprint framing)
+// ---------------------------------------------------------------------------------------------
+
+struct AvroDec {
+    store: arrow_avro::schema::SchemaStore,
+    batch_size: usize,
+}
+
+impl Dec for AvroDec {
+    fn name(&self) -> &'static str {
+        "avro.decoder"
+    }
+    fn batch_size(&self) -> Option<usize> {
+        Some(self.batch_size)
+    }
+    fn fixed_boundaries(&self) -> bool {
+        false
+    }
+    fn decode(&self, data: &[u8], cuts: &[usize]) -> DOut {
+        set_component("avro.decoder");
+        let mut out = DOut::default();
+        let mut dec = match arrow_avro::reader::ReaderBuilder::new().with_writer_schema_store(self.store.clone()).with_batch_size(self.batch_size).build_decoder() {
+            Ok(d) => d,
+            Err(e) => {
+                out.err = Some(e.to_string());
+                return out;
+            }
+        };
+        let src = Chunks::new(data, cuts);
+        let mut carry: Vec<u8> = Vec::new();
+        let mut steps = 0;
+        // the loop documented on arrow_avro::reader::Decoder: feed, re-present what was not consumed together with
+        // the next chunk, flush when the batch is full and at the end
+        for chunk in src.raw() {
+            carry.extend_from_slice(chunk);
+            loop {
+                steps += 1;
+                if steps > STEP_BUDGET {
+                    out.hang = true;
+                    return out;
+                }
+                if carry.is_empty() {
+                    break;
+                }
+                let n = match dec.decode(&carry) {
+                    Ok(n) => n,
+                    Err(e) => {
+                        out.err = Some(e.to_string());
+                        return out;
+                    }
+                };
+                carry.drain(..n);
+                if dec.batch_is_full() {
+                    match dec.flush() {
+                        Ok(Some(b)) => {
+                            if !out.take(b) {
+                                return out;
+                            }
+                        }
+                        Ok(None) => {}
+                        Err(e) => {
+                            out.err = Some(e.to_string());
+                            return out;
+                        }
+                    }
+                } else if n == 0 {
+                    // needs more bytes
+                    break;
+                }
+            }
+        }
+        match dec.flush() {
+            Ok(Some(b)) => {
+                out.take(b);
+            }
+            Ok(None) => {}
+            Err(e) => out.err = Some(e.to_string()),
+        }
+        if !carry.is_empty() && out.err.is_none() {
+            out.err = Some(format!("{} trailing bytes could not be decoded", carry.len()));
+        }
+        out
+    }
+}
+
+fn avro_soe(ctx: &Ctx) -> R {
+    use arrow_avro::schema::{AvroSchema, SchemaStore};
+    use arrow_avro::writer::format::AvroSoeFormat;
+    use arrow_avro::writer::WriterBuilder;
+    let p = checks::avro::avro_profile(ctx);
+    let wl = gen_workload(ctx, &p, 2, 6, false);
+    let batch_size = *ctx.pick(&[1024usize, 1, 2, 3], "avro.batch");
+    // the schema the writer derives from the Arrow schema is the one the reader's store must know
+    let Ok(avro_schema) = AvroSchema::try_from(wl.schema.as_ref()) else {
+        ctx.count("skipped", 1);
+        ctx.count("skipped.reference_write_failed", 1);
+        return Ok(());
+    };
+    let mut store = SchemaStore::new();
+    if store.register(avro_schema).is_err() {
+        ctx.count("skipped", 1);
+        return Ok(());
+    }
+    let written = catch_unwind(AssertUnwindSafe(|| -> Result<Vec<u8>, String> {
+        let mut w = WriterBuilder::new(wl.schema.as_ref().clone()).build::<_, AvroSoeFormat>(Vec::new()).map_err(|e| e.to_string())?;
+        for b in &wl.batches {
+            w.write(b).map_err(|e| e.to_string())?;
+        }
+        w.finish().map_err(|e| e.to_string())?;
+        Ok(w.into_inner())
+    }));
+    let data = match written {
+        Ok(Ok(d)) => d,
+        _ => {
+            ctx.count("skipped", 1);
+            ctx.count("skipped.reference_write_failed", 1);
+            return Ok(());
+        }
+    };
+    ctx.ev_bytes("bytes", &data);
+    let d = AvroDec { store, batch_size };
+    ctx.shape(d.name(), data.len() as u64, wl.total_rows() as u64);
+    // rows of the one-chunk decode against what was written
+    let truth = wl.rows();
+    if !schedules(ctx, &d, "valid", &data, None)? {
+        return Ok(());
+    }
+    let _ = truth;
+    ctx.nontrivial();
+    if data.len() > 2 {
+        let cut = 1 + ctx.below(data.len() - 1, "trunc.at");
+        schedules(ctx, &d, "truncated", &data[..cut], None)?;
+    }
+    Ok(())
+}
+
 fn main() {
     simcore::main_with(
         "C14",
@@ -833,6 +970,7 @@ fn main() {
             Scenario { name: "csv", runs_quick: 400, runs_thorough: 10000, f: csv },
             Scenario { name: "json", runs_quick: 400, runs_thorough: 10000, f: json },
             Scenario { name: "ipc_stream", runs_quick: 300, runs_thorough: 8000, f: ipc_stream },
+            Scenario { name: "avro_soe", runs_quick: 150, runs_thorough: 3000, f: avro_soe },
             Scenario { name: "pq_meta", runs_quick: 300, runs_thorough: 8000, f: pq_meta },
             Scenario { name: "flight_decoder", runs_quick: 600, runs_thorough: 20000, f: flight_decoder },
         ],
